@@ -169,6 +169,7 @@ structure Stack where
   storeLog : List (Bool × SvcKey × Addr) := []   -- ghost: every store-level notification (true = offered) in order
   refreshLog : List (Addr × SvcKey × Nat × Nat) := []   -- ghost: (source, service, time, ttl) of every TimedStore.refresh of found_services
   armLog : List (Cb × Nat × Nat) := []           -- ghost: (expiry callback, time, ttl) of every TimedStore.refresh that stores an entry (both stores)
+  subMarks : List (Option Nat × Nat) := []       -- ghost: (none, time) of every subscriber start; (some n, time) of every refresh round, run by subscribe task n
   sendLog : List (Dest × (Bool × Nat)) := []     -- ghost: every (destination, (reboot flag, session id)) send_sd drew from the session storage
   flushLog : List (Dest × List SDEntry) := []    -- ghost: every batch of queued entries handed to send_sd (zero timeout: singletons; else a closed window)
   findTask : Option Nat := none
@@ -206,6 +207,8 @@ def isSubExpiryFor (i : Nat) (a : Addr) (k : SubKey) : Cb → Bool
   | .expiredSub i' a' k' => i' == i && a' == a && k' == k
   | _ => false
 def isSleep : Cb → Bool | .sleepDone _ => true | _ => false
+/-- the sleep handle of ONE task (handle identity, as for `isSvcExpiryFor`): a task cancels its own sleep only -/
+def isSleepFor (tid : Tid) : Cb → Bool | .sleepDone t => t == tid | _ => false
 
 def cancelTimer (s : Stack) (own : Cb → Bool) (t : Option Nat) : Stack := { s with loop := s.loop.cancelOpt own t }
 
@@ -529,7 +532,7 @@ def stopSubscribeEventgroup (s : Stack) (g : Eventgroup) (dest : Addr) (send : B
 
 def subscriberStart (s : Stack) : Stack :=
   if s.alive then s else
-  let r := ({ s with alive := true, subLost := false }).createTask .subscribe
+  let r := ({ s with alive := true, subLost := false, subMarks := s.subMarks ++ [(none, s.loop.now)] }).createTask .subscribe
   { r.1 with subTask := some r.2 }
 
 def subscriberStop (s : Stack) (sendStop : Bool) : Stack :=
@@ -540,10 +543,14 @@ def subscriberStop (s : Stack) (sendStop : Bool) : Stack :=
     | none => s
   if sendStop then (groupEntries s.subEntries).foldl (fun s p => s.callSoon (.sendStopSubscribe p.1 p.2)) s else s
 
+/-- ghost: note that subscribe task n has run a refresh round now -/
+def markRound (s : Stack) (n : Nat) : Stack := { s with subMarks := s.subMarks ++ [(some n, s.loop.now)] }
+
 /-- one step of `ServiceSubscriber._subscribe` -/
 def stepSubscribe (s : Stack) (tid : Tid) (t : TaskSt) : Stack :=
   let round (s : Stack) : Stack :=
     let s := (groupEntries s.subEntries).foldl (fun s p => s.sendSubscribe s.tm.subscribeTtl p.1 p.2) s
+    let s := s.markRound tid.2
     match s.tm.subscribeRefresh with
     | none => s.finish tid t
     | some r => s.sleepFor tid t r .cyclic
@@ -766,7 +773,7 @@ def runCb (s : Stack) : Cb → Stack
     | some t =>
       if t.pc = .done then s else
       -- resuming from `asyncio.sleep`: its `finally` cancels the timer handle
-      let s := s.cancelTimer isSleep t.sleep
+      let s := s.cancelTimer (isSleepFor tid) t.sleep
       let t := { t with sleep := none, waiting := false }
       match tid.1 with
       | .offer i => s.stepOffer tid t i
